@@ -11,7 +11,7 @@ from ref import uslp as R
 from units import uslp as UU
 
 PROPERTY = "C17"
-LEVEL = "exploration"
+LEVEL = "model_checking"  # bounded-exhaustive enumeration of executions against a reference model (DESIGN.md 1, 2.1)
 EXHAUSTIVE = True
 RULE = (
     "a case is one of: a primary header field vector (scid, src/dst, vcid, map, frame length, bypass, protocol-command, "
